@@ -478,6 +478,14 @@ impl<'a> ExpressionEvaluator<'a> {
                 BinaryOperator::Multiply => {
                     Ok(vec![left[0].mul(&right[0]).map_err(EvaluationError::from)?])
                 }
+                // A zero divisor is the statement's error (integer division would panic in the worker).
+                BinaryOperator::Divide | BinaryOperator::Modulo
+                    if right[0].is_numeric() && right[0].to_f64() == Some(0.0) =>
+                {
+                    Err(EvaluationError::InvalidExpression(
+                        "division by zero".to_string(),
+                    ))
+                }
                 BinaryOperator::Divide => {
                     Ok(vec![left[0].div(&right[0]).map_err(EvaluationError::from)?])
                 }
